@@ -11,11 +11,11 @@ import (
 
 func init() {
 	register("C25", propMeta{
-		Explanation:  "Decides the clause 'a read never crashes the process' and the structural conditions of damage tolerance, not reconstruction itself: (R1) every slice/index of bytes that come from a shard file (the ReadFile result in GetOne, the per-shard metadata handed to Decode, the pad byte used to size the result) is dominated by a nil/length guard on the same expression; (R2) a write fails exactly when the number of failed shard writes exceeds ParityShardsCount (counter compared with `>` against that field, counter incremented once per received error); (R3) the three sites that know the shard file layout agree: Add and the repair branch write metadata||shard, GetOne splits at erasure.MetaDataSize, ComputeShardMetadata returns 1+md5.Size = MetaDataSize bytes, and all sites build the file name with the same format over the shard index; (R4) checksum-based detection examines every shard (the loop ranges over the whole shards parameter), a shard is discarded only on checksum mismatch, and every failure of the final verification yields a non-nil error. (R5) every ComputeShardMetadata call receives len(E) for the very blob E whose Encode produced the shards it is computed over (the pad count a later read applies comes from this metadata).",
+		Explanation:  "Decides the clause 'a read never crashes the process' and the structural conditions of damage tolerance, not reconstruction itself: (R1) every slice/index of bytes that come from a shard file (the ReadFile result in GetOne, the per-shard metadata handed to Decode, the pad byte used to size the result) is dominated by a nil/length guard on the same expression; (R2) a write fails exactly when the number of failed shard writes exceeds ParityShardsCount (counter compared with `>` against that field, counter incremented once per received error); (R3) the three sites that know the shard file layout agree: Add and the repair branch write metadata||shard, GetOne splits at erasure.MetaDataSize, ComputeShardMetadata returns 1+md5.Size = MetaDataSize bytes, and all sites build the file name with the same format over the shard index; (R4) checksum-based detection examines every shard (the loop ranges over the whole shards parameter), a shard is discarded only on checksum mismatch, and every failure of the final verification yields a non-nil error. (R5) every ComputeShardMetadata call receives len(E) for the very blob E whose Encode produced the shards it is computed over (the pad count a later read applies comes from this metadata). (R6) a failed first reconstruction pass can fall through to the checksum-guided pass (a shard of the wrong length is a damaged shard), and that pass is gated by verification results only.",
 		DoesNotCover: "That Reed-Solomon reconstruction returns the stored bytes (library behaviour and arithmetic) is not decided.",
 	}, runC25)
 	register("C26", propMeta{
-		Explanation:  "Decides only 'the repairing read rewrites what it reconstructed, in the on-disk format': (R1) in GetOne the repair block is entered exactly under repairCorruptedShards && len(ReconstructedShardsIndeces) > 0, iterates over all reported indices and for each writes ComputeShardMetadata(len(decoded), encoded, i) || encoded[i] to the path of shard i; (R2) Decode's reported index set on the success path includes the shards found missing AND those found corrupt (the second phase must not discard the first phase's list). Every DecodeResult returned by detectBadShardsThenReconstruct sets Error or carries the list of corrupt shards.",
+		Explanation:  "Decides only 'the repairing read rewrites what it reconstructed, in the on-disk format': (R1) in GetOne the repair block is entered exactly under repairCorruptedShards && len(ReconstructedShardsIndeces) > 0, iterates over all reported indices and for each writes ComputeShardMetadata(len(decoded), encoded, i) || encoded[i] to the path of shard i; (R2) Decode's reported index set on the success path includes the shards found missing AND those found corrupt (the second phase must not discard the first phase's list). Every DecodeResult returned by detectBadShardsThenReconstruct sets Error or carries the list of corrupt shards. A second-phase result assigned straight over the first phase's (without merging the index lists) is reported too.",
 		DoesNotCover: "That every shard file is intact afterwards and that p further failures are then tolerated (runtime, library).",
 	}, runC26)
 }
